@@ -1,2 +1,44 @@
-(** C13 - placeholder *)
-From VG Require Import Model.Serve.
+(** C13 - Pass-through and unknown-endpoint requests are forwarded untouched.
+    Statements only; proofs in Proofs/ServeProofs.v. *)
+From VG Require Import Model.Bytes Model.Headers Model.RespMeta Model.Request Model.Serve Gen.Generated.
+From VG Require Import Proofs.ServeProofs.
+Open Scope Z_scope.
+
+(** When the request is passed through, the service's handler is given the client's own request
+    head: method, path, query, HTTP version, headers, content length. *)
+Theorem C13_passthrough_untouched : forall pf ff t r h,
+  serve_head pf ff t r = DPass h ->
+  h = original_head r /\ exists o, validate pf t r = VOk o /\ is_passthrough o = true.
+Proof. exact serve_head_pass. Qed.
+Print Assumptions C13_passthrough_untouched.
+
+(** A request that matches nothing goes to the unknown-endpoint handler, untouched - whatever
+    its content type or HTTP version - and is answered 404 only when there is no such handler. *)
+Theorem C13_unknown_untouched : forall pf ff t r h,
+  serve_head pf ff t r = DUnknown h ->
+  h = original_head r /\ validate pf t r = VNotFound /\ tc_has_unknown t = true.
+Proof. exact serve_head_unknown. Qed.
+Print Assumptions C13_unknown_untouched.
+
+(** Pass-through happens exactly when the backend is given the client's own protocol, codec and
+    compression - in particular whenever the service accepts all three. *)
+Theorem C13_acceptable_is_passthrough : forall pf t r o,
+  validate pf t r = VOk o -> op_server o <> SRest ->
+  In (cproto_protocol (op_client o)) (mc_protocols (op_method o)) ->
+  In (op_client_codec o) (mc_codecs (op_method o)) ->
+  (op_client_comp o = [] \/ In (op_client_comp o) (mc_comps (op_method o))) ->
+  is_passthrough o = true.
+Proof. exact acceptable_is_passthrough. Qed.
+Print Assumptions C13_acceptable_is_passthrough.
+
+Theorem C13_every_outcome : forall pf ff t r,
+  match serve_head pf ff t r with
+  | DReject st a => validate pf t r = VError st a
+  | DNotFound => validate pf t r = VNotFound /\ tc_has_unknown t = false
+  | DUnknown _ => validate pf t r = VNotFound /\ tc_has_unknown t = true
+  | DPass _ => exists o, validate pf t r = VOk o /\ is_passthrough o = true
+  | DHandle _ _ _ o => validate pf t r = VOk o /\ is_passthrough o = false
+  | DNeedsMessage o => validate pf t r = VOk o /\ is_passthrough o = false
+  end.
+Proof. exact serve_head_cases. Qed.
+Print Assumptions C13_every_outcome.
